@@ -400,3 +400,17 @@ def sparse_bindings_roundtrip(H, cname):
         else:
             H.check(f"binding[{n}].still_unset", b.message_type == MidiMessageType.unset and b.channel == 0 and b.message_parameter == 0)
     H.cover("reached")
+
+
+@contract("roundtrip_canary", ["C01", "C02"], targets=["rv.container:Container.write_to", "rv.readers.reader:read_sunvox_file"], canary=True)
+def roundtrip_canary(H, _):
+    """False claim that must be refuted and replayed: layer survives for every int32 (it is written
+    signed and read unsigned, so negative layers do not)."""
+    from rv.modules.amplifier import Amplifier
+
+    p = Project()
+    m = Amplifier()
+    m.layer = H.int("layer", *K.I32)
+    p.attach_module(m)
+    q = rw.read_back(H, rw.write_container(H, p))
+    H.check("canary_any_int32_layer_survives", q.modules[1].layer == m.layer)
